@@ -183,7 +183,7 @@ func (cs *ContractSet) parseFile(path, pkgDir string, extern bool) {
 	var cur *Contract
 	var curExt *ExternContract
 	var curLoop int
-	var curVars, curVarTypes []string
+	var curVars, curVarTypes, curVarLocals []string
 	for _, l := range lines {
 		body, where := l[0], l[1]
 		word := body
@@ -249,9 +249,17 @@ func (cs *ContractSet) parseFile(path, pkgDir string, extern bool) {
 				cs.mapInvs = append(cs.mapInvs, [2]string{"G:" + path + "." + f[0], f[1]})
 			}
 		case word == "contract":
-			cur = &Contract{RawKey: rest, Pkg: pkgDir, File: where}
-			cur.Key = contractKey(pkgDir, rest)
-			cs.contracts = append(cs.contracts, cur)
+			cur = nil
+			for _, c := range cs.contracts {
+				if c.Key == contractKey(pkgDir, rest) {
+					cur = c // several blocks for one function are merged
+				}
+			}
+			if cur == nil {
+				cur = &Contract{RawKey: rest, Pkg: pkgDir, File: where}
+				cur.Key = contractKey(pkgDir, rest)
+				cs.contracts = append(cs.contracts, cur)
+			}
 			curExt = nil
 			curLoop = 0
 		case word == "extern":
@@ -275,7 +283,7 @@ func (cs *ContractSet) parseFile(path, pkgDir string, extern bool) {
 			// loop N [vars name type, name type]
 			f := strings.SplitN(rest, "vars", 2)
 			fmt.Sscanf(strings.TrimSpace(f[0]), "%d", &curLoop)
-			curVars, curVarTypes = nil, nil
+			curVars, curVarTypes, curVarLocals = nil, nil, nil
 			if len(f) == 2 {
 				for _, d := range strings.Split(f[1], ",") {
 					d = strings.TrimSpace(d)
@@ -287,7 +295,12 @@ func (cs *ContractSet) parseFile(path, pkgDir string, extern bool) {
 						cs.errs = append(cs.errs, where+": loop var needs a type: "+d)
 						continue
 					}
-					curVars = append(curVars, d[:j])
+					nm, loc := d[:j], d[:j]
+					if k := strings.Index(nm, "="); k > 0 {
+						nm, loc = nm[:k], nm[k+1:]
+					}
+					curVars = append(curVars, nm)
+					curVarLocals = append(curVarLocals, loc)
 					curVarTypes = append(curVarTypes, strings.TrimSpace(d[j+1:]))
 				}
 			}
@@ -395,7 +408,7 @@ func (cs *ContractSet) parseFile(path, pkgDir string, extern bool) {
 					cur.Ensures = append(cur.Ensures, cl)
 				case "invariant":
 					cl.Loop = curLoop
-					cl.VarNames, cl.VarTypes = curVars, curVarTypes
+					cl.VarNames, cl.VarTypes, cl.VarLocal = curVars, curVarTypes, curVarLocals
 					cur.Loops = append(cur.Loops, cl)
 				case "assert":
 					cur.Asserts = append(cur.Asserts, cl)
